@@ -323,7 +323,8 @@ suite is told per candidate by the harness and folds it into `isInt`; the eval s
 def reservedName (name : String) : Bool := name == "self" || name == "info"
 
 /-- the test made before looking at the body: `useReg := name != "" && !s.NoReg && s.env.HasRegisters() &&
-!object.Constant(name) && !object.ReservedName(name)` in `evalForInteger`; the same conjunction without `name != ""` (the empty name is a
+!object.Constant(name) && !object.ReservedName(name) && !s.env.IsOwnFunctionName(name)` in `evalForInteger` (the last conjunct, like `!ownName`
+of the parameter site, is not part of this definition); the same conjunction without `name != ""` (the empty name is a
 constant name) in `extendFunctionEnv`, where the integer test and `!ownName` come on top (`isInt` in `useRegister`) -/
 def registerEligible (noReg : Bool) (f : Reg.File) (name : String) : Bool :=
   name != "" && !noReg && f.hasRegisters && !isConstant name && !reservedName name
